@@ -185,4 +185,16 @@ def compute (resp transcript : Cbor) (ikey : Option (Nat × Nat)) : Out :=
       | _, _, _, _ => false
     ⟨isa, mso.isSome, dig, dt, dkey, dsa⟩
 
+/-! ### reader authentication (C11): the same for one document request -/
+
+/-- the readerAuth signature of a document request verifies, under the given key, over
+Sig_structure(protected, ReaderAuthenticationBytes(transcript, ItemsRequestBytes AS RECEIVED)) -/
+def readerSigAccepts (docRequest transcript : Cbor) (key : Option (Nat × Nat)) : Bool :=
+  match mget docRequest (tx "itemsRequest"), (mget docRequest (tx "readerAuth")).bind coseArr, key with
+  | some (.tag 24 (.bytes items)), some [.bytes prot, _, _, .bytes sig], some (x, y) =>
+    let ra := Cbor.enc (.array [tx "ReaderAuthentication", transcript, .tag 24 (.bytes items)])
+    let raBytes := Cbor.enc (.tag 24 (.bytes ra))
+    ecdsaVerify x y (sigStructure prot raBytes) sig
+  | _, _, _ => false
+
 end IsoMdl.ResponseFacts
